@@ -153,8 +153,11 @@ def check_case(case) -> Result:
             return r
         raise
     if case.get("rerun"):
+        first, first_occ = res, [e2e.to_np(x).copy() for x in res.occupation]
         res = cut(backend.run)
         r.label("second_run_of_the_same_backend")
+        if any(np.abs(e2e.to_np(a) - b).max() > 0 for a, b in zip(first.occupation, first_occ)):
+            r.fail("second_run_changed_the_first_results", "occupations of the Results returned by the first run changed during the second run")
     if rho0 is not None and np.abs(cfg.initial_state.data.numpy() - rho0).max() > 1e-14:
         r.fail("run_modified_the_configured_initial_state", f"max change {np.abs(cfg.initial_state.data.numpy() - rho0).max():.3e}; "
                f"trace now {np.trace(cfg.initial_state.data.numpy()).real:.6f}")
